@@ -52,8 +52,20 @@ type selfRef struct {
 }
 
 type awkward struct {
-	name string
-	make func() interface{}
+	name  string
+	make  func() interface{}
+	depth int // the panic is raised (the error is returned from) this many frames below the task's Run
+}
+
+// descend calls f `n` frames further down (never inlined: the frames are real).
+//
+//go:noinline
+func descend(n int, f func() error) error {
+	if n <= 0 {
+		return f()
+	}
+	err := descend(n-1, f)
+	return err // (not a tail call)
 }
 
 func runtimeErr(f func()) interface{} {
@@ -68,49 +80,60 @@ func runtimeErr(f func()) interface{} {
 func awkwardValues() []awkward {
 	var nilPath *os.PathError
 	return []awkward{
-		{"a plain string", func() interface{} { return "boom" }},
-		{"an error wrapping a typed-nil *os.PathError (the cause's Error() panics)", func() interface{} { return fmt.Errorf("open config: %w", nilPath) }},
-		{"a doubly wrapped typed-nil *os.PathError", func() interface{} { return fmt.Errorf("start: %w", fmt.Errorf("open config: %w", nilPath)) }},
-		{"a typed-nil *os.PathError in an error interface", func() interface{} { return error(nilPath) }},
-		{"an error whose Error() panics", func() interface{} { return errPanicsInError{} }},
-		{"an error wrapping an error whose Error() panics", func() interface{} { return &os.PathError{Op: "open", Path: "/x", Err: errPanicsInError{}} }},
-		{"an error whose Error() dereferences nil", func() interface{} { return &errNilDeref{} }},
-		{"a typed-nil error whose Error() dereferences the receiver", func() interface{} { return (*errNilDeref)(nil) }},
-		{"a Stringer whose String() panics", func() interface{} { return strPanics{} }},
-		{"a GoStringer whose GoString() panics", func() interface{} { return goStrPanics{} }},
-		{"a Formatter whose Format() panics", func() interface{} { return fmtPanics{} }},
-		{"a runtime.Error (nil map write)", func() interface{} { return runtimeErr(func() { var m map[int]int; m[1] = 1 }) }},
-		{"a runtime.Error (index out of range)", func() interface{} { return runtimeErr(func() { var s []int; i := 3; _ = s[i] }) }},
-		{"a runtime.Error (nil dereference)", func() interface{} { return runtimeErr(func() { var p *selfRef; _ = p.Name }) }},
-		{"a runtime.Error (failed type assertion)", func() interface{} { return runtimeErr(func() { var x interface{} = 1; _ = x.(string) }) }},
-		{"nil (panic(nil))", func() interface{} { return nil }},
-		{"a 4 MiB string", func() interface{} { return strings.Repeat("x", 4<<20) }},
-		{"a slice of 10^6 ints", func() interface{} { return make([]int, 1000000) }},
-		{"a chain of 2000 wrapped errors", func() interface{} {
+		{name: "a plain string", make: func() interface{} { return "boom" }},
+		{name: "a plain string, 22 frames below Run", make: func() interface{} { return "boom" }, depth: 22},
+		{name: "a plain string, 40 frames below Run", make: func() interface{} { return "boom" }, depth: 40},
+		{name: "an error, 200 frames below Run", make: func() interface{} { return errors.New("deep") }, depth: 200},
+		{name: "a runtime.Error (nil map write), 2000 frames below Run", make: func() interface{} { return runtimeErr(func() { var m map[int]int; m[1] = 1 }) }, depth: 2000},
+		{name: "a chain of 20 wrapped errors, 31 frames below Run", make: func() interface{} {
+			err := errors.New("root")
+			for i := 0; i < 20; i++ {
+				err = fmt.Errorf("l%d: %w", i, err)
+			}
+			return err
+		}, depth: 31},
+		{name: "an error wrapping a typed-nil *os.PathError (the cause's Error() panics)", make: func() interface{} { return fmt.Errorf("open config: %w", nilPath) }},
+		{name: "a doubly wrapped typed-nil *os.PathError", make: func() interface{} { return fmt.Errorf("start: %w", fmt.Errorf("open config: %w", nilPath)) }},
+		{name: "a typed-nil *os.PathError in an error interface", make: func() interface{} { return error(nilPath) }},
+		{name: "an error whose Error() panics", make: func() interface{} { return errPanicsInError{} }},
+		{name: "an error wrapping an error whose Error() panics", make: func() interface{} { return &os.PathError{Op: "open", Path: "/x", Err: errPanicsInError{}} }},
+		{name: "an error whose Error() dereferences nil", make: func() interface{} { return &errNilDeref{} }},
+		{name: "a typed-nil error whose Error() dereferences the receiver", make: func() interface{} { return (*errNilDeref)(nil) }},
+		{name: "a Stringer whose String() panics", make: func() interface{} { return strPanics{} }},
+		{name: "a GoStringer whose GoString() panics", make: func() interface{} { return goStrPanics{} }},
+		{name: "a Formatter whose Format() panics", make: func() interface{} { return fmtPanics{} }},
+		{name: "a runtime.Error (nil map write)", make: func() interface{} { return runtimeErr(func() { var m map[int]int; m[1] = 1 }) }},
+		{name: "a runtime.Error (index out of range)", make: func() interface{} { return runtimeErr(func() { var s []int; i := 3; _ = s[i] }) }},
+		{name: "a runtime.Error (nil dereference)", make: func() interface{} { return runtimeErr(func() { var p *selfRef; _ = p.Name }) }},
+		{name: "a runtime.Error (failed type assertion)", make: func() interface{} { return runtimeErr(func() { var x interface{} = 1; _ = x.(string) }) }},
+		{name: "nil (panic(nil))", make: func() interface{} { return nil }},
+		{name: "a 4 MiB string", make: func() interface{} { return strings.Repeat("x", 4<<20) }},
+		{name: "a slice of 10^6 ints", make: func() interface{} { return make([]int, 1000000) }},
+		{name: "a chain of 2000 wrapped errors", make: func() interface{} {
 			err := errors.New("root")
 			for i := 0; i < 2000; i++ {
 				err = fmt.Errorf("l%d: %w", i, err)
 			}
 			return err
 		}},
-		{"an errors.Join tree with a typed-nil leaf", func() interface{} {
+		{name: "an errors.Join tree with a typed-nil leaf", make: func() interface{} {
 			return errors.Join(io.EOF, fmt.Errorf("a: %w", errors.Join(os.ErrNotExist, error(nilPath))), errors.New("b"))
 		}},
-		{"a multi-error (Unwrap() []error) with nil and panicking members", func() interface{} {
+		{name: "a multi-error (Unwrap() []error) with nil and panicking members", make: func() interface{} {
 			return multiErr{[]error{nil, errPanicsInError{}, error(nilPath)}}
 		}},
-		{"an error wrapping a multi-error with a panicking member", func() interface{} {
+		{name: "an error wrapping a multi-error with a panicking member", make: func() interface{} {
 			return fmt.Errorf("outer: %w", multiErr{[]error{errPanicsInError{}}})
 		}},
-		{"a self-referential struct pointer", func() interface{} {
+		{name: "a self-referential struct pointer", make: func() interface{} {
 			s := &selfRef{Name: "s", M: map[string]interface{}{}}
 			s.Next = s
 			s.M["me"] = s
 			return s
 		}},
-		{"a func value", func() interface{} { return func() {} }},
-		{"a channel", func() interface{} { return make(chan int) }},
-		{"an error value that is itself a panicking error wrapped by %w twice over errors.Join", func() interface{} {
+		{name: "a func value", make: func() interface{} { return func() {} }},
+		{name: "a channel", make: func() interface{} { return make(chan int) }},
+		{name: "an error value that is itself a panicking error wrapped by %w twice over errors.Join", make: func() interface{} {
 			return fmt.Errorf("x: %w", errors.Join(fmt.Errorf("y: %w", errPanicsInError{})))
 		}},
 	}
@@ -122,6 +145,7 @@ type valTask struct {
 	v       interface{}
 	asPanic bool
 	gate    chan struct{}
+	depth   int
 }
 
 func (t *valTask) Run() error {
@@ -133,13 +157,15 @@ func (t *valTask) Run() error {
 	if t.v == noValue {
 		return nil
 	}
-	if t.asPanic {
-		panic(t.v)
-	}
-	if err, ok := t.v.(error); ok {
-		return err
-	}
-	return fmt.Errorf("task failed: %v", "x")
+	return descend(t.depth, func() error {
+		if t.asPanic {
+			panic(t.v)
+		}
+		if err, ok := t.v.(error); ok {
+			return err
+		}
+		return fmt.Errorf("task failed: %v", "x")
+	})
 }
 
 var noValue interface{} = &struct{ x int }{1}
@@ -176,7 +202,7 @@ func valuesChild() {
 				continue
 			}
 			fmt.Printf("VALUE %d %s begin\n", i, mode)
-			t := &valTask{b: b, id: id, v: v, asPanic: mode == "panic"}
+			t := &valTask{b: b, id: id, v: v, asPanic: mode == "panic", depth: a.depth}
 			id++
 			if err := ex.Execute(t); err != nil {
 				fmt.Printf("VALUE %d %s refused\n", i, mode)
